@@ -227,6 +227,8 @@ class TermGen:
         if kind == "npi":
             return ["np", "int64", repr(int(v))]
         if kind == "npf":
+            if r.random() < 0.15:
+                return ["np", "float64", r.choice(["0.0", "-0.0"])]     # signed zeros
             return ["np", "float64", repr(float(v))]
         if kind == "c":
             return ["c", repr(float(v)), "1.0"]
